@@ -191,6 +191,17 @@ ADDENDA12 = {
  "C19": " Also: the list encoder's scan is the loop that calls the per-name encoder (a size-only pre-pass is not part of it); an empty result under len(arg) == 0 is the concatenation over no names.",
 }
 
+# rounds 13-14, corpora T/F and the normalisation pre-pass (DESIGN §31-§32)
+ADDENDA14 = {
+ "C01": " Also (round 13): an option instance exists from the moment its length octet is read: no path from that read to the next iteration of the option loop avoids the map store (a zero-length option still creates its key).",
+ "C03": " Also (round 13): D7 needs nil-freedom as well as the dynamic type: a type assertion on GetOneOption's result is discharged only when, for every assignment of the function's nil tests with the operand nil, no CFG path reaches the assertion. The maybe-nil-local rule follows the value into module callees that dereference the parameter, including elements of a variadic parameter (round 14).",
+ "C06": " Also (round 13, K12): the rejections and conditional field stores of the DHCPv6 option decoders equal the reviewed set (E8 census, shared C02/C05) — a decoder that drops a field for more inputs than before changes the re-encoded bytes.",
+ "C14": " Also (round 13, K3): every datagram read reaches the decoder — no path from the read to the next read avoids the decode call, so which datagrams decode is the decoder's verdict alone.",
+ "C17": " Also (round 13): the label decoder's state machine (C19-K3, compression-pointer mask and jump rules) is evaluated under C17 for DomainSearch(); the presence helper and its callers share one decoder.",
+ "C18": " Also (round 13): fold completeness knows both fold forms — (x>>16)+(x&0xffff), and the end-around add uint16(x + x>>16), which is complete only when x is the sum of two zero-extended 16-bit values.",
+ "C20": " Also (round 13): the key-order rules of C07 (sortedKeys: total order, no ties decided by map iteration) are evaluated under C20.",
+}
+
 NA_REASON = {}
 
 def main():
@@ -201,7 +212,7 @@ def main():
         pid = p["id"]
         if pid in CLAIMED:
             tech, text, note, ref = CLAIMED[pid]
-            text = text + ADDENDA.get(pid, "") + ADDENDA7.get(pid, "") + ADDENDA8.get(pid, "") + ADDENDA10.get(pid, "") + ADDENDA12.get(pid, "")
+            text = text + ADDENDA.get(pid, "") + ADDENDA7.get(pid, "") + ADDENDA8.get(pid, "") + ADDENDA10.get(pid, "") + ADDENDA12.get(pid, "") + ADDENDA14.get(pid, "")
             checks.append({
                 "property_id": pid,
                 "quick_cmd": f"./check.sh {pid} quick",
